@@ -42,6 +42,7 @@ type iOp struct {
 	name string
 	cbp  bool
 	nh   uint64 // NextHopFaceId in the LP header (0 = absent)
+	hint string // forwarding hint delegation ("" = none)
 }
 type dOp struct {
 	face uint64
@@ -87,6 +88,9 @@ func (s *sys) addI(o iOp) {
 	}
 	if o.nh != 0 {
 		sh += "+nh=" + faceLabel[o.nh]
+	}
+	if o.hint != "" {
+		sh += "+hint=" + o.hint
 	}
 	oo := o
 	s.add(fmt.Sprintf("I(%s,%s,%s)", faceLabel[o.face], o.name, sh), opDef{i: &oo})
@@ -160,6 +164,11 @@ func build(cfgName string) explore.System {
 	s.addI(iOp{face: fwsim.N2, name: "/localhost/x", nh: fwsim.L5}) // NextHopFaceId on a face without local fields
 	s.addD(dOp{face: fwsim.N2, name: "/localhost/x", tok: "echo1"})
 	s.addD(dOp{face: fwsim.L5, name: "/localhost/x", tok: "echo1"})
+	// forwarding hints: the FIB lookup (and anything else keyed on "the lookup name") uses the
+	// hint instead of the Interest name, which must not weaken the scope test on the name
+	s.addI(iOp{face: fwsim.L1, name: "/localhost/x", hint: "/a"})
+	s.addI(iOp{face: fwsim.L1, name: "/localhost/x", hint: "/a", nh: fwsim.N2})
+	s.addI(iOp{face: fwsim.L1, name: "/a", hint: "/localhost/h"})
 	return s
 }
 
@@ -240,6 +249,9 @@ func (s *sys) step(in *inst, op explore.Op) (v []report.Violation) {
 		o := d.i
 		in.nonceCtr++
 		is := fwsim.InterestSpec{Name: o.name, CanBePrefix: o.cbp, Nonce: fwsim.U32(0x2000 + in.nonceCtr)}
+		if o.hint != "" {
+			is.Hint = []string{o.hint}
+		}
 		var lp fwsim.LP
 		if o.nh != 0 {
 			lp.NextHopFaceID = fwsim.U64(o.nh)
